@@ -78,7 +78,7 @@ Fixpoint points_go (rest : list string) (ss : list fsel) (chunk : list (string *
                            if is_last rest' then
                              match extract_id o with
                              | None => PErr
-                             | Some None => POk []                                   (* return nil, nil: everything found so far is dropped *)
+                             | Some None => each t (S i) acc                         (* nothing but __typename: passed over (since fix ba7bf6b; before: return nil, nil for the whole list) *)
                              | Some (Some id) =>
                                  match points_go rest' (fsub sel) o (branch ++ [render_list_point point i id]) with
                                  | POk r => each t (S i) (acc ++ r) | PErr => PErr end
